@@ -537,7 +537,7 @@ Proof.
     destruct (contains_anon c) eqn:Hc; inv_ok.
     assert (Hva' : va_ok (Some (Variable_ m a []))) by reflexivity.
     destruct (IHs _ Hva' _ _ Ha0) as [? ?].
-    destruct (negb (is_nil l)); inv_ok.
+    destruct (existsb (decl_uses_counter a) l); inv_ok.
     + split.
       * apply CLs_while; split; auto; apply CLs_block; repeat constructor; auto.
       * repeat constructor; auto.
